@@ -588,3 +588,59 @@ package lua
 //@ noraise
 //@ ensures  result == 0 && pc(L) == old(pc(L)) && uvsValid(L)
 //@ modifies L.uvcache, type Upvalue.next, type Upvalue.closed, type Upvalue.value
+
+// ---------------------------------------------------------------------------
+// number arithmetic shared by the VM and the constant folder; constant table and RK operands of the compiler
+// ---------------------------------------------------------------------------
+
+// a % b == a - floor(a/b)*b computed as math.Mod corrected towards the sign of the divisor (manual §2.5.1)
+//@ func luaModulo [C01]
+//@ noraise
+//@ ensures  same(result, ite((rhs > 0 && m_Mod(lhs, rhs) < 0) || (rhs < 0 && m_Mod(lhs, rhs) > 0), m_Mod(lhs, rhs) + rhs, m_Mod(lhs, rhs)))
+//@ modifies nothing
+
+// run-time arithmetic on two numbers is the IEEE operation itself, never an integer shortcut; % is luaModulo and ^ is
+// math.Pow - the same two functions the compile-time folder (constFold) calls, so folded and unfolded expressions agree
+//@ func numberArith [C01]
+//@ requires opcode == OP_ADD || opcode == OP_SUB || opcode == OP_MUL || opcode == OP_DIV || opcode == OP_MOD || opcode == OP_POW
+//@ noraise
+//@ ensures  opcode == OP_ADD ==> same(result, lhs + rhs)
+//@ ensures  opcode == OP_SUB ==> same(result, lhs - rhs)
+//@ ensures  opcode == OP_MUL ==> same(result, lhs * rhs)
+//@ ensures  opcode == OP_DIV ==> same(result, lhs / rhs)
+//@ ensures  opcode == OP_MOD ==> same(result, luaModulo(lhs, rhs))
+//@ ensures  opcode == OP_POW ==> same(result, m_Pow(lhs, rhs))
+//@ modifies nothing
+
+// a number is integral iff converting it to int64 and back gives the same number (so NaN, infinities and anything
+// beyond the int64 range are not)
+//@ func isInteger [C01]
+//@ noraise
+//@ ensures  result <==> v == i2f(f2i(v))
+//@ modifies nothing
+
+//@ trusted raiseCompileError [C01]
+//@ noreturn
+//@ modifies nothing
+
+// ConstIndex: the index of a constant equal to value - the FIRST existing one, else a new last entry; no other entry changes
+//@ func (*funcContext).ConstIndex [C01 C07]
+//@ requires fc != nil && fc.Proto != nil && offset(fc.Proto.Constants) == 0 && value != nil && len(fc.Proto.Constants) <= opMaxArgBx + 1 && (forall k int :: 0 <= k && k < len(fc.Proto.Constants) ==> fc.Proto.Constants[k] != nil)
+//@ ensures  0 <= result && result < len(fc.Proto.Constants) && result <= opMaxArgBx && (lveq(fc.Proto.Constants[result], value) || same(fc.Proto.Constants[result], value)) && lvtype(fc.Proto.Constants[result]) == lvtype(value)
+//@ ensures  len(fc.Proto.Constants) >= old(len(fc.Proto.Constants)) && len(fc.Proto.Constants) <= old(len(fc.Proto.Constants)) + 1 && forall k int :: 0 <= k && k < old(len(fc.Proto.Constants)) ==> same(fc.Proto.Constants[k], old(fc.Proto.Constants[k]))
+//@ ensures  "first-match": forall k int :: 0 <= k && k < result && k < old(len(fc.Proto.Constants)) ==> !(lvtype(old(fc.Proto.Constants[k])) == lvtype(value) && lveq(old(fc.Proto.Constants[k]), value))
+//@ ensures  "appended-only-if-absent": len(fc.Proto.Constants) == old(len(fc.Proto.Constants)) + 1 ==> result == old(len(fc.Proto.Constants))
+//@ modifies fc.Proto.Constants, fc.Proto.Constants[*]
+//@ loop 1 invariant 0 <= i && i <= len(fc.Proto.Constants) && forall k int :: 0 <= k && k < i ==> !(lvtype(fc.Proto.Constants[k]) == lvtype(value) && lveq(fc.Proto.Constants[k], value))
+
+// loadRk: a constant operand is encoded as an RK constant reference only when the index fits the 8-bit RK field - the
+// encoded operand then decodes back to exactly that constant index - and is otherwise loaded into the next free register
+//@ trusted sline [C01]
+//@ noraise
+//@ modifies nothing
+
+//@ func loadRk [C01 C07]
+//@ requires context != nil && context.Code != nil && Inv_cs(context.Code) && reg != nil && 0 <= deref(reg) && deref(reg) <= 255 && context.Proto != nil && offset(context.Proto.Constants) == 0 && cnst != nil && len(context.Proto.Constants) <= opMaxArgBx + 1 && (forall k int :: 0 <= k && k < len(context.Proto.Constants) ==> context.Proto.Constants[k] != nil)
+//@ assert@"return opRkAsk(cindex)" opIsK(opRkAsk(cindex)) && opIndexK(opRkAsk(cindex)) == cindex
+//@ ensures  !opIsK(result) ==> result == old(deref(reg))
+//@ modifies context.Proto.Constants, context.Proto.Constants[*], context.Code.codes, context.Code.lines, context.Code.pc, context.Code.codes[*], context.Code.lines[*], *reg
